@@ -26,7 +26,7 @@ for pid in sorted(set(q) | set(t)):
 p = os.path.join(root, 'DESIGN.md')
 s = open(p).read()
 head = '## 10. Bounds completed on the final tree'
-body = head + '\n\nFrom the evidence files of the last quick run (`evidence/`) and the last thorough run (`evidence-thorough/`, copies\nkept because every run rewrites `evidence/`). "cases" are enumerated cases of the property\'s rule, "implementation calls"\nexecutions of the real code. The thorough tiers of the checks extended in rounds 6 and 7 (C01, C02, C06, C07, C09, C12, C13, C14, C18, C19, C20) were re-run\nafter the extension and are the rows shown; C05's row is its last complete thorough run, which predates round 6 (a thorough run takes about 75 minutes;\nthe round-6 variants of C05 keep the quick tier's bounds in both tiers and are covered by the quick row); C03, C04, C08, C10, C11, C15, C16, C17 were not changed since their thorough run.\n\n' + '\n'.join(rows) + '\n'
+body = head + '\n\nFrom the evidence files of the last quick run (`evidence/`) and the last thorough run (`evidence-thorough/`, copies\nkept because every run rewrites `evidence/`). "cases" are enumerated cases of the property\'s rule, "implementation calls"\nexecutions of the real code. The thorough tiers of the checks extended in rounds 6 and 7 (C01, C02, C06, C07, C09, C12, C13, C14, C18, C19, C20) were re-run\nafter the extension and are the rows shown; the C05 row is its last complete thorough run, which predates round 6 (a thorough run takes about 75 minutes;\nthe round-6 variants of C05 keep the bounds of the quick tier in both tiers and are covered by the quick row); C03, C04, C08, C10, C11, C15, C16, C17 were not changed since their thorough run.\n\n' + '\n'.join(rows) + '\n'
 if head in s:
     s = s[:s.index(head)] + body
 else:
